@@ -38,6 +38,10 @@ void Caller::final_pop(const std::string outfile){
 void Caller::add_read(int bam_alignment_pos, std::vector<std::vector<int>> &bam_alignment_cigartuples, std::string &bam_alignment_query, const std::string outfile){
 	this->target_pos_pre= bam_alignment_pos;//initially the target position is where the read maps to reference
 	this->enumerate_kmers(bam_alignment_pos,bam_alignment_query, this->k, bam_alignment_cigartuples);
+	if (enum_kmers.empty()) {
+		// fewer than k aligned bases: the read contributes no k-mer (and there is no first k-mer to start from)
+		return;
+	}
 	this->kmer_generators.push_back(enum_kmers);//all the read kmers enumerated and pushed as a deque to a deque of all the previously generated read kmers
 	this->kmer_generators_finished.push_back(false);//not yet finished with kmer generators
 	int iterator_index = this->kmer_generators.size()-1;//index of the last deque (just added) of enum read kmers
